@@ -307,6 +307,14 @@ def time_case(ctx, env, case, lines, checks):
                               case=dict(cdesc, t=t), impl=v, predicate='pd(t) = 0 for t outside every [l,u)')
     if not (S_impl > 0 and math.isfinite(S_impl)):
         ctx.count('time-S-zero')
+        # OPEN FINDING (known_findings.d/C10.json): with S = 0 the code returns inf / NaN for on-time events
+        for name, pdv in (('SignalTimePDF', pd_s), ('BackgroundTimePDF', pd_b)):
+            bad = [(t, v) for t, v in zip(probes, pdv.tolist()) if brute_on(ivs, t) and not (math.isfinite(v) and v >= 0)]
+            if bad:
+                ctx.violation(name + '.get_pd', 'nan-or-inf-density-when-S-is-zero',
+                              f'S = {S_impl!r}; pd({bad[0][0]}) = {bad[0][1]!r} for an on-time event',
+                              case=dict(cdesc, t=bad[0][0]), impl=bad[0][1],
+                              predicate='a density is finite and >= 0 (window without on-time)')
         do_update()
         return
     ctx.count('time-S-positive')
@@ -397,11 +405,59 @@ def time_corpus():
            {'ivs': ivs, 'profile': {'kind': 'gauss', 'place': 'span', 't0': 4.0, 'sigma': 1.0}},
            {'ivs': ivs, 'profile': {'kind': 'gauss', 'place': 'gap', 't0': 6.0, 'sigma': 0.0625}},
            {'ivs': [(2.0, 2.0), (2.0, 3.0), (3.0, 3.5)], 'profile': {'kind': 'box', 'place': 'touching', 't0': 2.5, 'tw': 1.0}},
+           # S = 0: zero-width box inside the on-time (inf at the box, NaN elsewhere on-time) and a box in the gap
+           {'ivs': ivs, 'profile': {'kind': 'box', 'place': 'zero', 't0': 2.0, 'tw': 0.0}},
+           {'ivs': ivs, 'profile': {'kind': 'box', 'place': 'gap', 't0': 6.0, 'tw': 1.0}},
            {'ivs': ivs, 'profile': {'kind': 'box', 'place': 'test_signalpdf', 't0': 5.0, 'tw': 10.0},
             'update': {'kind': 'box', 'place': 'inside', 't0': 3.0, 'tw': 2.0}},
            {'ivs': ivs, 'profile': {'kind': 'gauss', 'place': 'span', 't0': 4.0, 'sigma': 1.0},
             'update': {'kind': 'gauss', 'place': 'span', 't0': 8.5, 'sigma': 0.25}}]
     return out
+
+
+# ============================================================================ a REAL TrialDataManager
+
+class RealTDM:
+    """builds real skyllh TrialDataManager instances (one point source, no event selection) from plain arrays"""
+    def __init__(self):
+        from skyllh.core.config import Config
+        from skyllh.core.parameters import ParameterModelMapper
+        from skyllh.core.source_model import PointLikeSource
+        from skyllh.core.source_hypo_grouping import SourceHypoGroupManager, SourceHypoGroup
+        from skyllh.core.flux_model import SteadyPointlikeFFM
+        self.cfg = Config()
+        src = PointLikeSource(ra=1.0, dec=0.1)
+        fm = SteadyPointlikeFFM(Phi0=1, energy_profile=None, cfg=self.cfg)
+        self.shg_mgr = SourceHypoGroupManager(SourceHypoGroup(sources=[src], fluxmodel=fm, detsigyield_builders=[]))
+        self.pmm = ParameterModelMapper(models=[src])
+
+    def make(self, **fields):
+        from skyllh.core.trialdata import TrialDataManager
+        from skyllh.core.storage import DataFieldRecordArray as DFRA
+        n = len(next(iter(fields.values())))
+        names = list(fields)
+        arr = np.zeros(n, dtype=[(k, np.float64) for k in names])
+        for k in names:
+            arr[k] = fields[k]
+        tdm = TrialDataManager()
+        tdm.initialize_trial(self.shg_mgr, self.pmm, DFRA(arr))
+        return tdm
+
+
+_REAL_TDM = []
+
+
+def real_tdm(**fields):
+    if not _REAL_TDM:
+        _REAL_TDM.append(RealTDM())
+    return _REAL_TDM[0].make(**fields)
+
+
+def special(v):
+    """test-event coordinate: int on the 1/16 grid, or 'nan' / 'inf' / '-inf'"""
+    if isinstance(v, str):
+        return float(v)
+    return v / 16.0
 
 
 # ============================================================================ histogram PDFs
@@ -454,7 +510,16 @@ def hist_corpus():
     """the failing input of the repaired defect (22ec0cf): events on the upper-most edges"""
     return [{'kind': 'ehist', 'eE': [8, 16, 24, 40], 'eS': [-8, 0, 4, 8],
              'ev': [(80, 16, 1.0, 1.0), (16, -16, 1.0, 0.5), (40, 2, 2.0, 1.0), (50, 9, 1.0, 1.0), (33, -3, 1.0, 0.0)],
-             'tests': [(80, 16), (80, 3), (40, 16), (16, -16), (48, 0), (81, 0), (16, 17)], 'smooth': 0}]
+             'tests': [(80, 16), (80, 3), (40, 16), (16, -16), (48, 0), (81, 0), (16, 17)], 'smooth': 0},
+            # a declination band without any MC event (NaN band), non-square 2 x 4
+            {'kind': 'ehist', 'eE': [8, 16, 24], 'eS': [-8, -4, 0, 4, 8],
+             'ev': [(20, -14, 1.0, 1.0), (40, -3, 2.0, 0.5), (17, 9, 1.0, 1.0), (48, 16, 1.0, 1.0)],
+             'tests': [(48, 16), (16, -16), (30, 2), (48, -16), (20, 16)], 'smooth': 0},
+            # smoothed, every band populated
+            {'kind': 'ehist', 'eE': [8, 16, 24, 40, 48], 'eS': [-8, 0, 8],
+             'ev': [(20, -9, 1.0, 1.0), (33, -3, 2.0, 0.5), (50, -2, 1.0, 1.0), (90, -8, 1.0, 1.0),
+                    (17, 9, 1.0, 1.0), (48, 16, 1.0, 1.0), (96, 3, 0.5, 1.0)],
+             'tests': [(96, 16), (16, -16), (30, 2)], 'smooth': 1}]
 
 
 def ehist_impl(cfg, case):
@@ -479,23 +544,26 @@ def ehist_impl(cfg, case):
     return pdf, eE, eS
 
 
-def eval_event(pdf, x, y):
-    """assert_is_valid + get_pd for ONE event; returns (valid_result, pd_result)"""
-    tdm = TDM(log_energy=np.array([x]), sin_dec=np.array([y]), dec=np.array([y]))
-    # assert_is_valid_for_trial_data computes sin(tdm['dec']); hand it the sin(dec) value itself through a
-    # dec whose sine is exactly representable: use the binning check directly on y instead
-    try:
-        le_b = pdf.get_binning('log_energy')
-        sd_b = pdf.get_binning('sin_dec')
-        valid = not (le_b.any_data_out_of_range(tdm['log_energy']) or sd_b.any_data_out_of_range(tdm['sin_dec']))
-        v = ['Ok'] if valid else ['Err', 'ValueError']
-    except Exception as ex:
-        v = ['Err', type(ex).__name__]
-    try:
-        (pd, _) = pdf.get_pd(tdm)
-        g = ['Ok', float(pd[0])]
-    except Exception as ex:
-        g = ['Err', type(ex).__name__]
+def eval_event(pdf, x, y, dec=None):
+    """the REAL assert_is_valid_for_trial_data and get_pd for ONE event held by a REAL TrialDataManager;
+    returns (valid_result, pd_result)"""
+    with np.errstate(all='ignore'), warnings.catch_warnings():
+        warnings.simplefilter('ignore')
+        tdm = real_tdm(log_energy=np.array([x]), sin_dec=np.array([y]),
+                       dec=(np.array([dec]) if dec is not None else
+                            np.arcsin(np.clip(np.array([y]), -1, 1)) if math.isfinite(y) else np.array([y])))
+        try:
+            pdf.assert_is_valid_for_trial_data(tdm)
+            v = ['Ok']
+        except ValueError:
+            v = ['Err', 'ValueError']
+        except Exception as ex:
+            v = ['Err', type(ex).__name__]
+        try:
+            (pd, _) = pdf.get_pd(tdm)
+            g = ['Ok', float(pd[0])]
+        except Exception as ex:
+            g = ['Err', type(ex).__name__]
     return v, g
 
 
@@ -517,6 +585,24 @@ def ehist_case(ctx, cfg, case, zexprs, zchecks, lines, checks):
     zS = zlist([e * 2 for e in case['eS']])
     idx = '[' + '; '.join('[' + '; '.join(str(i * 1000 + j) for j in range(nbs)) + ']' for i in range(nbe)) + ']'
     obs = []
+    xin, yin = case['eE'][0] * 2 + 1, case['eS'][0] * 2 + 1           # an in-range point
+    for (x, y) in [('nan', yin), (xin, 'nan'), ('inf', yin), (xin, '-inf'), ('nan', 'nan')]:
+        v, g = eval_event(pdf, special(x), special(y))
+        ctx.count('lookup-nan-or-inf')
+        if v != ['Err', 'ValueError']:
+            ctx.disagree('I3EnergyPDF.assert_is_valid_for_trial_data', dict(cdesc, event=(x, y)), v, ['Err', 'ValueError'],
+                         'a NaN / infinite value must be rejected (C10_nan_rejected, C10_inf_rejected)')
+        if v == ['Ok'] and g[0] != 'Ok':
+            ctx.violation('I3EnergyPDF.get_pd', 'raises-' + g[1] + '-for-accepted-data',
+                          f'event (log_energy={x}, sin_dec={y}) passes the validity check but get_pd raises',
+                          case=dict(cdesc, event=(x, y)), impl=g,
+                          predicate='assert_is_valid_for_trial_data accepts => get_pd returns a value')
+    # the check must read the field get_pd evaluates: sin_dec out of range while dec itself is harmless
+    for y_out in (case['eS'][-1] * 2 + 1, case['eS'][0] * 2 - 1):
+        v, g = eval_event(pdf, xin / 16.0, y_out / 16.0, dec=0.0)
+        if v != ['Err', 'ValueError']:
+            ctx.disagree('I3EnergyPDF.assert_is_valid_for_trial_data', dict(cdesc, event=(xin, y_out), dec=0.0), v,
+                         ['Err', 'ValueError'], 'sin_dec outside the binning range must be rejected whatever dec is')
     for (x, y) in case['tests']:
         v, g = eval_event(pdf, x / 16.0, y / 16.0)
         obs.append((v, g))
@@ -531,25 +617,24 @@ def ehist_case(ctx, cfg, case, zexprs, zchecks, lines, checks):
                           f'event (log_energy={x / 16.0}, sin_dec={y / 16.0}) passes the validity check but get_pd raises',
                           case=dict(cdesc, event=(x, y)), impl=g,
                           predicate='assert_is_valid_for_trial_data accepts => get_pd returns a value')
-    # the real validity method on all accepted test events at once (sin_dec in [-1,1] only)
-    acc = [(x, y) for (x, y), (v, g) in zip(case['tests'], obs) if v == ['Ok'] and abs(y) <= 16]
+    # the real validity method + get_pd on ALL accepted test events at once (real TDM)
+    acc = [(x, y) for (x, y), (v, g) in zip(case['tests'], obs) if v == ['Ok']]
     if acc:
-        tdm = TDM(log_energy=np.array([a[0] / 16.0 for a in acc]), sin_dec=np.array([a[1] / 16.0 for a in acc]))
-        tdm['dec'] = np.arcsin(tdm['sin_dec'])
-        if np.array_equal(np.sin(tdm['dec']), tdm['sin_dec']):
-            try:
-                pdf.assert_is_valid_for_trial_data(tdm)
-                ctx.count('assert_is_valid-real-call')
-            except Exception as ex:
-                ctx.violation('I3EnergyPDF.assert_is_valid_for_trial_data', 'rejects-in-range-data',
-                              f'raised {type(ex).__name__} for data inside the binning range', case=cdesc)
-            try:
-                pdf.get_pd(tdm)
-            except Exception as ex:
-                ctx.violation('I3EnergyPDF.get_pd', 'raises-' + type(ex).__name__ + '-for-accepted-data',
-                              'get_pd raised for data accepted by assert_is_valid_for_trial_data', case=cdesc, impl=repr(ex))
+        tdm = real_tdm(log_energy=np.array([a[0] / 16.0 for a in acc]), sin_dec=np.array([a[1] / 16.0 for a in acc]),
+                       dec=np.zeros(len(acc)))
+        try:
+            pdf.assert_is_valid_for_trial_data(tdm)
+            ctx.count('assert_is_valid-real-call')
+        except Exception as ex:
+            ctx.violation('I3EnergyPDF.assert_is_valid_for_trial_data', 'rejects-in-range-data',
+                          f'raised {type(ex).__name__} for data inside the binning range', case=cdesc)
+        try:
+            pdf.get_pd(tdm)
+        except Exception as ex:
+            ctx.violation('I3EnergyPDF.get_pd', 'raises-' + type(ex).__name__ + '-for-accepted-data',
+                          'get_pd raised for data accepted by assert_is_valid_for_trial_data', case=cdesc, impl=repr(ex))
     # ---- MC binning by the Z model (for the float model of the normalisation)
-    if case['ev'] and not case['smooth']:
+    if case['ev']:
         xs = [e[0] for e in case['ev']]
         ys = [e[1] for e in case['ev']]
         zexprs.append(f'(mapM (hist_bin {zE}) {zlist(xs)}, mapM (hist_bin {zS}) {zlist(ys)})')
@@ -599,6 +684,11 @@ def ehist_case(ctx, cfg, case, zexprs, zchecks, lines, checks):
                                   'get_pd raised on in-range quadrature points incl. the outermost edges', case=cdesc, impl=repr(ex))
         else:
             ctx.count('ehist-band-empty')
+            # OPEN FINDING (known_findings.d/C10.json): a band without content is 0/0 = NaN throughout
+            if not case['smooth'] and np.any(np.isnan(col)):
+                ctx.violation('I3EnergyPDF.hist', 'nan-entries-in-empty-band',
+                              f'declination band {j} has no content and its entries are NaN', case=dict(cdesc, band=j),
+                              impl=col.tolist(), predicate='entries of a density are finite and >= 0 (empty bins)')
 
 
 def compare_z(ctx, zchecks, vals):
@@ -646,8 +736,14 @@ def compare_z(ctx, zchecks, vals):
                     raw[j][i] = math.fsum(terms[j][i])
             w = [(cdesc['eE'][i + 1] - cdesc['eE'][i]) / 8.0 for i in range(nbe)]
             for j in range(nbs):
-                lines.append(' '.join(['E', str(nbe)] + [fh(c) for c in raw[j]] + [fh(x) for x in w]))
-                checks.append(('eband', dict(cdesc, band=j), hist[:, j].tolist()))
+                if cdesc['smooth']:
+                    kern = [1.0] * (2 * cdesc['smooth'] + 1)          # BlockSmoothingFilter(nbins).axis_kernel_array
+                    lines.append(' '.join(['ES', str(nbe)] + [fh(c) for c in raw[j]] + [fh(x) for x in w]
+                                          + [str(len(kern))] + [fh(x) for x in kern]))
+                    checks.append(('esmooth', dict(cdesc, band=j), hist[:, j].tolist()))
+                else:
+                    lines.append(' '.join(['E', str(nbe)] + [fh(c) for c in raw[j]] + [fh(x) for x in w]))
+                    checks.append(('eband', dict(cdesc, band=j), hist[:, j].tolist()))
 
 
 def compare_eband(ctx, check, out):
@@ -701,6 +797,12 @@ def shist_case(ctx, cfg, case, zexprs, zchecks, lines, checks):
         (pd, _) = pdf.get_pd(tdm)
         logv = pdf._log_spline(centers)
         impl = ['Ok', np.exp(logv).tolist(), np.array(pd).tolist(), np.array(logv).tolist()]
+        # off-centre points incl. both outer half-bins and the outermost edges
+        wb = np.diff(e)
+        q = np.concatenate([e[:-1] + 0.125 * wb, e[:-1] + 0.875 * wb, [e[0], e[-1]]])
+        tq = TDM(sin_dec=q)
+        pdf.initialize_for_new_trial(tq)
+        impl.append([q.tolist(), np.array(pdf.get_pd(tq)[0]).tolist(), centers.tolist(), case['k']])
     except ValueError:
         impl = ['Err', 'ValueError']
     except Exception as ex:
@@ -751,6 +853,16 @@ def compare_shist(ctx, check, out):
         return
     if not all(same(a, b / (2 * math.pi), 1e-9) for a, b in zip(impl[2], h)):
         ctx.disagree('BackgroundI3SpatialPDF.get_pd', cdesc, impl[2], h, 'pd differs from density / (2 pi)')
+        return
+    # between the centres / in the outer half-bins: the documented log-spline (order k, extrapolating) through the
+    # MODEL's node values, built here independently of skyllh
+    import scipy.interpolate
+    q, pdq, centers, k = impl[4]
+    ref = scipy.interpolate.InterpolatedUnivariateSpline(centers, np.log(np.array(h)), k=k)
+    want = (0.5 / math.pi * np.exp(ref(np.array(q)))).tolist()
+    if not all(same(a, b, 1e-8) for a, b in zip(pdq, want)):
+        ctx.disagree('BackgroundI3SpatialPDF.get_pd', dict(cdesc, q=q), pdq, want,
+                     'density off the bin centres differs from the order-k extrapolating log-spline through the model nodes')
 
 
 # ---------------------------------------------------------------------------- PSF
@@ -836,6 +948,59 @@ def psf_case(ctx, cfg, rng, lines, checks, case=None):
     if not close_arr(own[0], pd, 1e-12):
         ctx.violation('GaussianPSFPointLikeSourceSignalSpatialPDF.calculate_pd', 'multi-source-differs-from-single-source',
                       'source 0 of a two-source call differs from the single-source call', case=case)
+    # ---- the Rayleigh PSF class: two sources with different sigma, cap integral each on its own, model values
+    from skyllh.core.signalpdf import RayleighPSFPointSourceSignalSpatialPDF
+    ray = RayleighPSFPointSourceSignalSpatialPDF(cfg=cfg)
+    # values: one per (source, event) pair; events 0..n-1 have sigma, events n..2n-1 have sigma2
+    psi_vals = np.concatenate([xs, xs2, xs, xs2])          # source 0 x all events, source 1 x all events
+    dr = {'psi': psi_vals, 'ang_err': d2['ang_err']}
+    sn = snap(dr['psi'], dr['ang_err'])
+
+    class _TR:
+        src_evt_idxs = (np.repeat(np.arange(2), 2 * n), np.tile(np.arange(2 * n), 2))
+
+        @staticmethod
+        def get_data(k):
+            return dr[k]
+    with np.errstate(all='ignore'):
+        ray.initialize_for_new_trial(_TR())
+        rv = np.array(ray.get_pd(_TR())[0], dtype=np.float64)
+        ray2 = RayleighPSFPointSourceSignalSpatialPDF(cfg=cfg)
+        ray2.initialize_for_new_trial(_TR())
+        rv2 = np.array(ray2.get_pd(_TR())[0], dtype=np.float64)
+    ctx.count('rayleigh-cases')
+    if not beq(rv, rv2) or changed(sn, [dr['psi'], dr['ang_err']]) is not None:
+        ctx.violation('RayleighPSFPointSourceSignalSpatialPDF.get_pd', 'repeat-differs-or-argument-modified',
+                      'a second instance gives different values or an input array changed', case=case)
+    for (lo_, r_, w_, sg_, R_) in ((0, xs, wq, sigma, R), (n, xs2, wq2, sigma2, R2), (2 * n, xs, wq, sigma, R),
+                                   (3 * n, xs2, wq2, sigma2, R2)):
+        vals = rv[lo_:lo_ + n]
+        tot_k = float(np.sum(2 * math.pi * np.sin(r_) * vals * w_))
+        want_k = 1.0 - math.exp(-R_ * R_ / (2 * sg_ * sg_))
+        if not (np.all(vals > 0) and abs(tot_k - want_k) <= 1e-6):
+            ctx.violation('RayleighPSFPointSourceSignalSpatialPDF.get_pd', 'not-normalised',
+                          f'cap integral {tot_k!r}, expected {want_k!r}', case=dict(case, block=lo_), impl=tot_k,
+                          predicate='int_0^Psi 2 pi sin(psi) pd dpsi = 1 - exp(-Psi^2/(2 sigma^2))')
+    for kk in range(0, 4 * n, 97):
+        sg_ = sigma if (kk % (2 * n)) < n else sigma2
+        lines.append('P ' + fh(sg_ ** 2) + ' ' + fh(float(psi_vals[kk])))
+        checks.append(('rayleigh', dict(case, psi=float(psi_vals[kk]), sigma=sg_), float(rv[kk])))
+    # OPEN FINDING (known_findings.d/C10.json): an event exactly on the source (psi = 0) gets 0/0 = NaN
+    d0 = {'psi': np.array([0.0, sigma]), 'ang_err': np.array([sigma, sigma])}
+
+    class _T0:
+        src_evt_idxs = (np.zeros(2, dtype=np.int64), np.arange(2))
+
+        @staticmethod
+        def get_data(k):
+            return d0[k]
+    with np.errstate(all='ignore'):
+        ray.initialize_for_new_trial(_T0())
+        v0 = np.array(ray.get_pd(_T0())[0], dtype=np.float64)
+    if not (math.isfinite(v0[0]) and v0[0] >= 0):
+        ctx.violation('RayleighPSFPointSourceSignalSpatialPDF.get_pd', 'nan-at-zero-separation',
+                      f'pd(psi = 0) = {v0[0]!r}', case=dict(case, psi=0.0), impl=float(v0[0]),
+                      predicate='a density is finite and >= 0')
 
 
 def compare_simple(ctx, check, out, site, col=0, tol=1e-12):
@@ -1142,6 +1307,100 @@ def time_history_case(ctx, env, case, lines=None, checks=None):
                             state(twc.time_flux_profile), times2, {'source': k, 'after': 'initialize_for_new_trial'}):
                 break
         args_ok('SignalTimePDF.initialize_for_new_trial')
+        # ---- 4. the public setters, a profile shared by two PDFs, changes of the live-time array from outside
+        def fresh_vals(ivs_now, prof_now, tms, bkg_=False):
+            st_ = state(prof_now)
+            cur_ = {'kind': kind, 't0': 0.5 * (st_[0] + st_[1])}
+            cur_.update({'tw': st_[1] - st_[0]} if kind == 'box' else {'sigma': st_[2]})
+            lt_ = Livetime(np.array(ivs_now, dtype=np.float64).reshape((len(ivs_now), 2)))
+            if bkg_:
+                tb = BackgroundTimePDF(livetime=lt_, time_flux_profile=mk_profile(env, cur_), cfg=env.cfg)
+                with np.errstate(all='ignore'), warnings.catch_warnings():
+                    warnings.simplefilter('ignore')
+                    tb.initialize_for_new_trial(make_tdm_k(tms, 1))
+                    return np.array(tb.get_pd(make_tdm_k(tms, 1))[0]), tb, st_
+            ts_ = SignalTimePDF(pmm=env.pmm, livetime=lt_, time_flux_profile=mk_profile(env, cur_), cfg=env.cfg)
+            return call_sig(ts_, make_tdm_k(tms, 1), env.rec), ts_, st_
+
+        def cmp_obj(site, tag, got, ivs_now, prof_now, tms, bkg_=False):
+            tv, tw_, st_ = fresh_vals(ivs_now, prof_now, tms, bkg_)
+            for t, a, b in zip(tms.tolist(), np.asarray(got).tolist(), tv.tolist()):
+                if kind == 'gauss' and near_window(t, st_):
+                    continue
+                if not same(a, b, 1e-9):
+                    ctx.violation(site, tag, f'pd({t}) = {a!r}, a freshly built PDF with the current live time and '
+                                  f'profile gives {b!r} (cached S = {float(getattr(tw_, "_S")):.6g} for the fresh one)',
+                                  case=dict(cdesc, step=tag), impl=a, model=b,
+                                  predicate='the density depends on the current live time and profile only')
+                    return
+        sigC = SignalTimePDF(pmm=env.pmm, livetime=lt, time_flux_profile=mk_profile(env, case['init']), cfg=env.cfg)
+        bkgC = BackgroundTimePDF(livetime=lt, time_flux_profile=mk_profile(env, case['init']), cfg=env.cfg)
+        _ = call_sig(sigC, make_tdm_k(times, 1), env.rec)              # read before the mutations
+        # (a) time_flux_profile setter
+        newp = mk_profile(env, dict(rows[0], kind=kind))
+        sigC.time_flux_profile = newp
+        cmp_obj('SignalTimePDF.time_flux_profile', 'stale-normalisation-after-setter',
+                call_sig(sigC, make_tdm_k(times, 1), env.rec), ivs, newp, times)
+        bkgC.time_flux_profile = mk_profile(env, dict(rows[0], kind=kind))
+        with np.errstate(all='ignore'), warnings.catch_warnings():
+            warnings.simplefilter('ignore')
+            bkgC.initialize_for_new_trial(make_tdm_k(times, 1))
+            gb = bkgC.get_pd(make_tdm_k(times, 1))[0]
+        cmp_obj('BackgroundTimePDF.time_flux_profile', 'stale-normalisation-after-setter', gb, ivs,
+                bkgC.time_flux_profile, times, bkg_=True)
+        # (b) livetime setter: drop the first interval / shrink the last one
+        ivs2 = [(l, u) for (l, u) in ivs[1:]] or [(ivs[0][0], 0.5 * (ivs[0][0] + ivs[0][1]))]
+        sigC.livetime = Livetime(np.array(ivs2, dtype=np.float64).reshape((len(ivs2), 2)))
+        cmp_obj('SignalTimePDF.livetime', 'stale-normalisation-after-setter',
+                call_sig(sigC, make_tdm_k(times, 1), env.rec), ivs2, sigC.time_flux_profile, times)
+        bkgC.livetime = Livetime(np.array(ivs2, dtype=np.float64).reshape((len(ivs2), 2)))
+        with np.errstate(all='ignore'), warnings.catch_warnings():
+            warnings.simplefilter('ignore')
+            bkgC.initialize_for_new_trial(make_tdm_k(times, 1))
+            gb = bkgC.get_pd(make_tdm_k(times, 1))[0]
+        cmp_obj('BackgroundTimePDF.livetime', 'stale-normalisation-after-setter', gb, ivs2, bkgC.time_flux_profile,
+                times, bkg_=True)
+        # (c) ONE profile object shared by a signal and a background PDF: the signal PDF's rows alter it
+        shared = mk_profile(env, case['init'])
+        ltS = Livetime(np.array(ivs, dtype=np.float64).reshape((len(ivs), 2)))
+        sigS = SignalTimePDF(pmm=env.pmm, livetime=ltS, time_flux_profile=shared, cfg=env.cfg)
+        bkgS = BackgroundTimePDF(livetime=ltS, time_flux_profile=shared, cfg=env.cfg)
+        with np.errstate(all='ignore'), warnings.catch_warnings():
+            warnings.simplefilter('ignore')
+            bkgS.initialize_for_new_trial(make_tdm_k(times, 1))
+            _ = bkgS.get_pd(make_tdm_k(times, 1))
+        _ = call_sig(sigS, make_tdm_k(times, 1), rec_of(kind, rows[:1]))
+        with np.errstate(all='ignore'), warnings.catch_warnings():
+            warnings.simplefilter('ignore')
+            bkgS.initialize_for_new_trial(make_tdm_k(times, 1))
+            gb = bkgS.get_pd(make_tdm_k(times, 1))[0]
+        cmp_obj('BackgroundTimePDF.get_pd', 'stale-normalisation-shared-profile', gb, ivs, shared, times, bkg_=True)
+        # (d) the profile / the live-time array changed from outside
+        if kind == 'box':
+            shared.tw = float(shared.tw) + 0.5
+        else:
+            shared.sigma_t = float(shared.sigma_t) * 2
+        cmp_obj('SignalTimePDF.get_pd', 'stale-normalisation-after-outside-change',
+                call_sig(sigS, make_tdm_k(times, 1), env.rec), ivs, shared, times)
+        ltS.uptime_mjd_intervals_arr = np.array(ivs2, dtype=np.float64).reshape((len(ivs2), 2))
+        cmp_obj('SignalTimePDF.get_pd', 'stale-normalisation-after-outside-change',
+                call_sig(sigS, make_tdm_k(times, 1), env.rec), ivs2, shared, times)
+        with np.errstate(all='ignore'), warnings.catch_warnings():
+            warnings.simplefilter('ignore')
+            bkgS.initialize_for_new_trial(make_tdm_k(times, 1))
+            gb = bkgS.get_pd(make_tdm_k(times, 1))[0]
+        cmp_obj('BackgroundTimePDF.get_pd', 'stale-normalisation-after-outside-change', gb, ivs2, shared, times, bkg_=True)
+        if lines is not None and float(sigS._S) > 0:
+            # the float model at the object's final state (intervals ivs2, profile `shared`)
+            fin = call_sig(sigS, make_tdm_k(times, 1), env.rec)
+            stS = state(shared)
+            head = ['T', kind, fh(stS[0]), fh(stS[1])] + ([fh(stS[2])] if kind == 'gauss' else [])
+            head += [str(len(ivs2))] + [fh(x) for iv in ivs2 for x in iv] + [str(n)] + [fh(t) for t in times.tolist()]
+            lines.append(' '.join(head))
+            checks.append(('time', dict(cdesc, kind='time', ivs=ivs2, profile={'kind': kind, 'place': 'after-ops',
+                                                                              'sigma': stS[2] or 0.0}),
+                           {'S': float(sigS._S), 'Sb': float(bkgS._S), 'probes': times.tolist(), 'sig': fin.tolist(),
+                            'bkg': np.asarray(gb).tolist()}))
         ctx.count('hist-time-done')
     except Exception as ex:
         ctx.violation('harness.time_history_case', 'crash-' + type(ex).__name__, repr(ex)[:300], case=cdesc)
@@ -1381,6 +1640,27 @@ def ehist_history_case(ctx, cfg, case):
 
 # ---------------------------------------------------------------------------- smoothing
 
+def smooth_big_case(ctx, rng):
+    """(200, 50) histogram with empty regions and a width-5 kernel: scipy would choose the FFT method"""
+    from skyllh.core.smoothing import BlockSmoothingFilter, NeighboringBinHistSmoothingMethod, UNSMOOTH_AXIS
+    r = np.random.RandomState(rng.randrange(2 ** 31))
+    h = r.random_sample((200, 50))
+    h[r.random_sample((200, 50)) < 0.5] = 0.0
+    h[:60] = 0.0
+    sm = NeighboringBinHistSmoothingMethod((BlockSmoothingFilter(2).axis_kernel_array, UNSMOOTH_AXIS))
+    out = np.array(sm.smooth(h))
+    ctx.count('smooth-big')
+    ctx.case({'kind': 'smooth-big', 'sum': float(h.sum())})
+    lo = h.min(axis=0)
+    hi = h.max(axis=0)
+    if not (np.all(out >= lo[None, :]) and np.all(out <= hi[None, :] * (1 + 1e-12))):
+        bad = np.argwhere(out < lo[None, :])
+        ctx.violation('NeighboringBinHistSmoothingMethod.smooth', 'not-a-convex-combination',
+                      f'{len(bad)} smoothed bins of a (200, 50) histogram are negative / outside the input range, '
+                      f'min = {float(out.min())!r}', case={'kind': 'smooth-big'}, impl=float(out.min()),
+                      predicate='min h <= smoothed_i <= max h (in particular >= 0)')
+
+
 def smooth_case(ctx, rng, lines, checks):
     """real NeighboringBinHistSmoothingMethod on a random 2d histogram vs smooth1 per column; convexity and the
     conservation law as predicates"""
@@ -1501,6 +1781,8 @@ def run_cases(ctx, tcases, hcases, scases, npsf, psf_cases=None, thist=(), shhis
         shist_case(ctx, cfg, c, zexprs, zchecks, lines, checks)
     for _ in range(nsmooth):
         smooth_case(ctx, ctx.rng, lines, checks)
+    if nsmooth:
+        smooth_big_case(ctx, ctx.rng)
     for c in (psf_cases or [None] * npsf):
         psf_case(ctx, cfg, ctx.rng, lines, checks, case=c)
         ctx.case({'psf': ctx.evaluations})
@@ -1548,6 +1830,10 @@ def run_cases(ctx, tcases, hcases, scases, npsf, psf_cases=None, thist=(), shhis
             compare_addev(ctx, chk, out)
         elif k == 'smooth':
             compare_list(ctx, chk, out, 'NeighboringBinHistSmoothingMethod.smooth', 1e-11)
+        elif k == 'esmooth':
+            compare_list(ctx, chk, out, 'I3EnergyPDF.hist(smoothed)', 1e-11)
+        elif k == 'rayleigh':
+            compare_simple(ctx, chk, out, 'RayleighPSF.get_pd', col=1, tol=1e-11)
 
 
 def run(ctx):
